@@ -21,6 +21,7 @@
     alignTensors  align_tensors    (tensor.py:571-591)
     binaryT       eager_binary_tensor_tensor for scalar outputs (tensor.py:700-726)
     materialize   materialize      (tensor.py:465-481) over a small lazy term language
+    LTerm.alignT  Funsor.align / Align / Contraction.align with eager_align; deltaAlign = Delta.align
 
   `gather v js` uses `getD … 0` purely as index plumbing behind the `isPerm` guard that models
   numpy's ValueError; no modelled raise is replaced by a default.
@@ -261,12 +262,15 @@ def alignTensor (newInputs : Inputs) (x : Tensor α) (expand : Bool) : Except Er
   | .ok data =>
     if expand then expandTo data (newInputs.map (·.2) ++ x.outShape) else .ok data
 
+def okOrNone {β : Type} : Except Err β → Option β
+  | .ok a => some a
+  | .error _ => none
+
 def unionInputs (xs : List (Tensor α)) : Inputs := xs.foldl (fun acc x => oupdate acc x.inputs) []
 
 def alignTensors (xs : List (Tensor α)) (expand : Bool) : Except Err (Inputs × List (Arr α)) :=
   let inputs := unionInputs xs
-  match xs.mapM (fun x => match alignTensor inputs x expand with
-      | .ok a => some a | .error _ => none) with
+  match xs.mapM (fun x => okOrNone (alignTensor inputs x expand)) with
   | some as => .ok (inputs, as)
   | none => .error .valueError
 
@@ -321,5 +325,97 @@ def Term.eval (ops : Nat → α → α → α) : Term α → Option (Tensor α)
       | .ok t => some t
       | .error _ => none
     | _, _ => none
+
+/-! ### Lazy alignment: `Funsor.align` / `Align` / `Contraction.align` / `Delta.align` -/
+
+/-- Lazy terms for alignment: variables, ground tensors, lazy binary ops, the lazy `Align`
+    wrapper and a two-operand `Contraction(red_op, bin_op, reduced_vars, (l, r))`. -/
+inductive LTerm (α : Type) where
+  | var (name : String) (size : Nat)
+  | tensor (t : Tensor α)
+  | binary (op : Nat) (l r : LTerm α)
+  | align (t : LTerm α) (names : List String)
+  | contract (rop bop : Nat) (rv : Inputs) (l r : LTerm α)
+
+/-- `.inputs`, in order (Binary: lhs then rhs; Align: names first; Contraction: operands' inputs
+    minus the reduced variables). -/
+def LTerm.inputs : LTerm α → Inputs
+  | .var n s => [(n, s)]
+  | .tensor t => t.inputs
+  | .binary _ l r => oupdate l.inputs r.inputs
+  | .align t names =>
+    oupdate (fromPairs (names.filterMap fun n => (lookup n t.inputs).map fun s => (n, s))) t.inputs
+  | .contract _ _ rv l r =>
+    oupdate (l.inputs.filter fun p => decide (p.1 ∉ rv.map (·.1)))
+      (r.inputs.filter fun p => decide (p.1 ∉ rv.map (·.1)))
+
+def LTerm.keys (t : LTerm α) : List String := t.inputs.map (·.1)
+
+def updEnv (env : String → Nat) (k : String) (v : Nat) : String → Nat :=
+  fun n => if n = k then v else env n
+
+/-- Reduce `body` over every assignment of the reduced variables (`red` folds a list of values). -/
+def reduceVars (red : List α → α) : Inputs → ((String → Nat) → α) → (String → Nat) → α
+  | [], body, env => body env
+  | (v, n) :: rest, body, env =>
+    red ((List.range n).map fun i => reduceVars red rest body (updEnv env v i))
+
+/-- Textbook meaning of a lazy term at a named point; `Align` is the identity. -/
+def LTerm.denote (ofNat : Nat → α) (ops : Nat → α → α → α) (red : Nat → List α → α) :
+    LTerm α → (String → Nat) → α
+  | .var n _, env => ofNat (env n)
+  | .tensor t, env => t.atEnv env []
+  | .binary op l r, env => ops op (l.denote ofNat ops red env) (r.denote ofNat ops red env)
+  | .align t _, env => t.denote ofNat ops red env
+  | .contract rop bop rv l r, env =>
+    reduceVars (red rop) rv
+      (fun e => ops bop (l.denote ofNat ops red e) (r.denote ofNat ops red e)) env
+
+def sameSet (a b : List String) : Bool := a.all (· ∈ b) && b.all (· ∈ a)
+
+/-- `Align(arg, names)` built under the eager interpretation: `Align.__init__` asserts
+    `names ⊆ arg.inputs`; `eager_align` drops the wrapper unless `names` are all the names. -/
+def mkAlign (t : LTerm α) (names : List String) : Option (LTerm α) :=
+  if !(names.all (· ∈ t.keys)) then none
+  else if sameSet names t.keys then some (.align t names) else some t
+
+/-- `Funsor.align` (terms.py:497-511). -/
+def funsorAlign (t : LTerm α) (names : List String) : Option (LTerm α) :=
+  if names.isEmpty || names = t.keys then some t else mkAlign t names
+
+/-- `x.align(names)` dispatched on the class of `x`; `none` = an assertion failed. -/
+def LTerm.alignT : LTerm α → List String → Option (LTerm α)
+  | .var n s, names => funsorAlign (.var n s) names
+  | .binary op l r, names => funsorAlign (.binary op l r) names
+  | .tensor t, names =>
+    match t.align names with
+    | .ok t' => some (.tensor t')
+    | .error _ => none
+  | .align t _, names => t.alignT names                    -- Align.align: self.arg.align(names)
+  | .contract rop bop rv l r, names =>                     -- Contraction.align (cnf.py:203-214)
+    if !(names.all (· ∈ (LTerm.contract rop bop rv l r).keys)) then none else
+    match l.alignT (names.filter (· ∈ l.keys)), r.alignT (names.filter (· ∈ r.keys)) with
+    | some l', some r' =>
+      if names = (LTerm.contract rop bop rv l' r').keys then some (.contract rop bop rv l' r')
+      else mkAlign (.contract rop bop rv l' r') names
+    | _, _ => none
+
+/-- Stable insertion by key (Python `sorted(..., key=...)`). -/
+def insertBy {β : Type} (key : β → Nat) (a : β) : List β → List β
+  | [] => [a]
+  | b :: l => if key a ≤ key b then a :: b :: l else b :: insertBy key a l
+
+def sortBy {β : Type} (key : β → Nat) : List β → List β
+  | [] => []
+  | a :: l => insertBy key a (sortBy key l)
+
+/-- `Delta.align(names)` on the tuple of `(name, (point, log_density))` terms (delta.py:127-134);
+    `tuple.index` raises `ValueError` for a term whose name is missing from `names`. -/
+def deltaAlign {β : Type} (terms : List (String × β)) (names : List String) :
+    Except Err (List (String × β)) :=
+  if !(names.all (· ∈ terms.map (·.1))) then .error .assertionError
+  else if names.isEmpty || names = terms.map (·.1) then .ok terms
+  else if !((terms.map (·.1)).all (· ∈ names)) then .error .valueError
+  else .ok (sortBy (fun t => pos t.1 names) terms)
 
 end FV.C19
